@@ -191,8 +191,16 @@ unsafe fn copy_bytes(src: *const u8, dst: *mut u8, count: usize){
         return;
     }
 
-    for i in 0..count{
-        *dst.add(i) = *src.add(i);
+    // Ranges may overlap (insert shifts right, remove shifts left):
+    // copy in the direction that does not overwrite not-yet-copied source bytes.
+    if dst as *const u8 <= src {
+        for i in 0..count{
+            *dst.add(i) = *src.add(i);
+        }
+    } else {
+        for i in (0..count).rev(){
+            *dst.add(i) = *src.add(i);
+        }
     }
 }
 
